@@ -468,6 +468,22 @@ func ruleC15Hello(c *Ctx) {
 			}
 			n++
 			key := fmt.Sprintf("%s:store#%d", fnName(fn), n)
+			// nothing can fail after the switch: a HELLO that answers an error has not changed the protocol
+			if _, isC := constInt(st.Val); !isC {
+				im := c.inert()
+				_, fails := im.pointsOf(fn)
+				after := ""
+				for _, f := range fails {
+					if (f.blk == st.Block() && f.idx > instrIndex(st)) || (f.blk != st.Block() && plainReachAvoid(st.Block(), f.blk, nil)) {
+						after = f.what + " at " + c.Pos(c.InstrPos(f.in))
+					}
+				}
+				if after != "" {
+					c.S.Bad("R-C15-hello", key+":then-cannot-fail", c.Pos(st.Pos()), fmt.Sprintf("%s stores the new protocol version and can still fail afterwards (%s): a refused HELLO has switched the connection", fnName(fn), after))
+				} else {
+					c.S.OK("R-C15-hello", key+":then-cannot-fail", c.Pos(st.Pos()), "no failure point is reachable after the version was stored")
+				}
+			}
 			if k, isC := constInt(st.Val); isC {
 				if k == 2 || k == 3 {
 					c.S.Trivial("R-C15-hello", key, c.Pos(st.Pos()), fmt.Sprintf("constant %d", k))
